@@ -15,6 +15,8 @@ TRUSTED = ['rustc MIR', 'the Frobenius algebra and degrees named in the property
 
 def run(ctx, rep):
     facts = ctx.facts()
+    rep.rule('E9.R11', 'Cob::stack drops an operand only when it is an identity cobordism (guards folded over a finite model of cobordisms)')
+    e9_relations.check_stack_shortcuts(facts, rep)
     rep.rule('E33', e33_scans.__doc__.strip().split('\n')[0])
     e33_scans.run_for(facts, rep, 'Bar-Natan category', ['yui_kh::kh::internal', 'LcCobTrait'], 12)
     import fixtures
